@@ -85,9 +85,22 @@ fn main() {
                     println!("{}", p.disassemble_string());
                     let cfg = ctl::vmctl::CtlConfig { gc, quarantine, event_log: true, ..Default::default() };
                     let budget = std::env::var("CAOSIM_BUDGET").ok().and_then(|b| b.parse().ok()).unwrap_or(100_000u64);
-                    let knobs = ctl::vmrun::Knobs { budget, ..Default::default() };
+                    let mut knobs = ctl::vmrun::Knobs { budget, ..Default::default() };
+                    if let Some(m) = std::env::var("CAOSIM_MEM").ok().and_then(|b| b.parse().ok()) {
+                        knobs.mem_limit = m;
+                    }
                     let out = ctl::vmrun::run_program(&p, &knobs, cfg, Default::default());
                     println!("result: {} {}", out.result, out.error_msg);
+                    if !out.trace.is_empty() {
+                        println!("trace: {}", out.trace.iter().map(|t| t.to_string()).collect::<Vec<_>>().join(" <- "));
+                    }
+                    if std::env::var_os("CAOSIM_TRACE_TABLE").is_some() {
+                        let mut ks: Vec<_> = p.trace.iter().map(|(k, v)| (*k, v.to_string())).collect();
+                        ks.sort();
+                        for (k, v) in ks {
+                            println!("trace-table {k} -> {v}");
+                        }
+                    }
                     for (k, v) in out.globals.iter() {
                         println!("global {k} = {}", v.short());
                     }
